@@ -10,6 +10,11 @@
 //   - a verifvsched.Point(label) before every statement that sends/receives on
 //     a channel, closes a channel, calls time.Sleep, or calls a method named in -methods
 //     (atomic loads/stores and similar).
+//
+// With -crash (E-CRASH, DESIGN.md 1.4) none of the above is done; instead a
+// verifvfs.Point("file.go:line") is put before every statement that contains a
+// call, and at the closing brace ("file.go:<line of }>") of every function
+// without results that can fall off its end.
 package main
 
 import (
@@ -44,6 +49,7 @@ var (
 	crash    bool // E-CRASH mode: only verifvfs.Point before every statement that contains a call
 	usedVfs  bool
 	done     = map[ast.Node]bool{} // statement lists already rewritten (including synthesized ones)
+	isPoint  = map[ast.Stmt]bool{} // synthesized crash points (never get a point of their own)
 )
 
 func main() {
@@ -53,6 +59,7 @@ func main() {
 	flag.BoolVar(&noSync, "nosync", false, "do not replace import sync")
 	flag.BoolVar(&noSelect, "noselect", false, "do not rewrite select statements (only put a point before them)")
 	flag.BoolVar(&crash, "crash", false, "crash-image mode: put verifvfs.Point(label) before every statement containing a call; nothing else is rewritten")
+	name := flag.String("name", "", "label prefix to use instead of the input file's base name (e.g. store/store.go, to tell equally named files apart)")
 	flag.Parse()
 	if crash {
 		noSync, noSelect = true, true
@@ -63,6 +70,9 @@ func main() {
 		}
 	}
 	base = filepath.Base(*in)
+	if *name != "" {
+		base = *name
+	}
 	src, err := os.ReadFile(*in)
 	if err != nil {
 		die(err)
@@ -124,6 +134,35 @@ func main() {
 		}
 		return true
 	})
+	// crash mode: a function without results that can fall off its end gets a
+	// point at its closing brace, so the state after its last statement is
+	// imaged even when the caller is not instrumented.
+	if crash {
+		ast.Inspect(f, func(n ast.Node) bool {
+			var ft *ast.FuncType
+			var body *ast.BlockStmt
+			switch x := n.(type) {
+			case *ast.FuncDecl:
+				ft, body = x.Type, x.Body
+			case *ast.FuncLit:
+				ft, body = x.Type, x.Body
+			}
+			if body == nil || (ft.Results != nil && len(ft.Results.List) > 0) {
+				return true
+			}
+			if k := len(body.List); k > 0 {
+				if _, isRet := body.List[k-1].(*ast.ReturnStmt); isRet {
+					return true
+				}
+			} else {
+				return true // empty body: nothing happened
+			}
+			pt := crashPoint(body.Rbrace)
+			isPoint[pt] = true
+			body.List = append(body.List, pt)
+			return true
+		})
+	}
 	ast.Inspect(f, func(n ast.Node) bool {
 		if n == nil || done[n] {
 			return true
@@ -357,7 +396,7 @@ func hasCall(s ast.Stmt) bool {
 	return found
 }
 
-func crashPoint(p token.Pos) ast.Stmt {
+func crashPoint(p token.Pos) *ast.ExprStmt {
 	usedVfs = true
 	return &ast.ExprStmt{X: call(sel("verifvfs", "Point"), lit(label(p)))}
 }
@@ -366,7 +405,7 @@ func rewriteList(list []ast.Stmt) []ast.Stmt {
 	var out []ast.Stmt
 	if crash {
 		for _, s := range list {
-			if hasCall(s) {
+			if hasCall(s) && !isPoint[s] {
 				out = append(out, crashPoint(s.Pos()))
 			}
 			out = append(out, s)
